@@ -34,7 +34,8 @@ TECHNIQUE = "exhaustive lattice of synthetic EKO archives x PDF-like inputs x (r
 LEVEL_TEXT = (
     "for every lattice point a real EKO archive is created, re-opened and applied; every returned number (all "
     "evolution points, all 14 labels, all grid points, values and errors) is compared with an independent "
-    "contraction, the typed basis rotation and the exact (polynomial) or basis-function re-interpolation"
+    "contraction, the typed basis rotation and the exact (polynomial) or basis-function re-interpolation; target "
+    "points also unsorted / repeated; theory orders (1,0), (1,1), (3,2), (1,2), (3,0); 1, 2, 3, 14 replicas"
 )
 LEVEL_NOTE = (
     "decides the property on the lattice only; 'its re-interpolation' for dense operators uses eko's own x-space "
@@ -47,6 +48,9 @@ FLOOR_NONTRIVIAL = 20
 EPS = float(np.finfo(float).eps)
 MUGRID = [[10.0, 5], [20.0, 5], [100.0, 6]]
 EPS_KEYS = [(100.0, 5), (400.0, 5), (10000.0, 6)]
+# optional 4th stored operator: same scale as the 2nd one, other number of flavours (an evolution point is the PAIR)
+MUGRID4 = MUGRID + [[20.0, 6]]
+EPS_KEYS4 = EPS_KEYS + [(400.0, 6)]
 MU0 = 1.65
 
 
@@ -89,10 +93,10 @@ class PdfLike:
 
 
 # ------------------------------------------------------------------------------------------------
-def _operators(kind, n, d, QX):
-    """list of (operator, error | None, W | None) for the three evolution points."""
+def _operators(kind, n, d, QX, npoints=3):
+    """list of (operator, error | None, W | None) for the three (four) evolution points."""
     out = []
-    for i in range(3):
+    for i in range(npoints):
         if kind == "poly":
             W = B.tensor((d + 1, 14, 14, n), phase=0.4 + i)
             O = np.einsum("jm,mabk->ajbk", QX, W)
@@ -117,6 +121,12 @@ def target_points(g, name):
         return [a**0.6 * b**0.4 for a, b in zip(g, g[1:])] + [g[-1]]
     if name == "single":
         return [(g[0] * g[1]) ** 0.5]
+    # target points are arbitrary points: neither sorted nor distinct
+    if name == "midpoints-reversed":
+        return [(a * b) ** 0.5 for a, b in zip(g, g[1:])][::-1]
+    if name == "dup":
+        m = [(a * b) ** 0.5 for a, b in zip(g, g[1:])]
+        return [m[1], m[0], m[1], g[-1], m[0]]
     raise KeyError(name)
 
 
@@ -127,16 +137,20 @@ def evaluate(case):
     from ekobox import apply
 
     qed, n, d, shape, xmin = case["qed"], case["n"], case["degree"], case["shape"], case["xmin"]
+    order = list(case.get("order", [1, 1] if qed else [1, 0]))  # perturbative orders (QCD, QED) of the theory card
+    assert qed == (order[1] > 0)
+    npoints, nrep = case.get("points", 3), case.get("replicas", 2)
+    mugrid, eps_keys = (MUGRID4, EPS_KEYS4) if npoints == 4 else (MUGRID, EPS_KEYS)
     opkind, linear_open = case["opkind"], case.get("linear_open", False)
     is_log = not linear_open
     g = G.make(shape, n, xmin)
     ref = G.PolyRef(g, is_log)
     QX = ref.monomials(g, d)
-    ops = _operators(opkind, n, d, QX)
+    ops = _operators(opkind, n, d, QX, npoints)
     res = Result()
     info = {"max_err_over_tol": 0.0, "checks": 0, "numbers": 0}
     path = cards.scratch_path("c43")
-    th, oc = cards.build(dict(order=[1, 1] if qed else [1, 0], xgrid=list(g), degree=d, mugrid=MUGRID, init=[MU0, 4]))
+    th, oc = cards.build(dict(order=order, xgrid=list(g), degree=d, mugrid=mugrid, init=[MU0, 4]))
     mu20 = MU0 * MU0
 
     # a "decoy" application first: another EKO with the same grid size, interpolation mode and degree but different
@@ -157,6 +171,7 @@ def evaluate(case):
                 dpath.unlink()
 
     pending = []  # (entry, name, atoms, signature suffix, message)
+    tcache = {}  # target kind -> reference quantities that depend on the target points only
 
     def flag(entry, name, atoms, what, msg):
         pending.append((entry, name, frozenset(atoms), what, msg))
@@ -172,9 +187,10 @@ def evaluate(case):
     def _one(eko, pk, mk, rotate, tname, entry):
         pdf = PdfLike(pk, MISSING[mk])
         Y = target_points(g, tname)
-        atoms = {"contraction"} | ({f"rotation(qed={qed})"} if rotate else set()) | ({"target-grid"} if Y is not None else set())
+        rot_atom = f"rotation(qed={qed})" if order[1] <= 1 else f"rotation(qed-order={order[1]})"
+        atoms = {"contraction"} | ({rot_atom} if rotate else set()) | ({"target-grid"} if Y is not None else set())
         where = (
-            f"qed={qed} n={n} degree={d} shape={shape} xmin={xmin} op={opkind} pdf={pk} missing={mk} rotate={rotate} "
+            f"order={order} points={npoints} replicas={nrep} qed={qed} n={n} degree={d} shape={shape} xmin={xmin} op={opkind} pdf={pk} missing={mk} rotate={rotate} "
             f"target={tname} entry={entry} log={is_log}"
         )
         Rm = None
@@ -193,9 +209,9 @@ def evaluate(case):
                     got, goterr = apply.apply_pdf_flavor(
                         eko, pdf, labels, None if Y is None else list(Y), None if Rm is None else Rm.copy()
                     )
-                else:  # apply_grids + rotate_result with 2 replicas
+                else:  # apply_grids + rotate_result with 2 (1, 3, 14) replicas
                     f0 = _inputs(PdfLike(pk, MISSING[mk]), g, mu20)
-                    grids, gerrs = apply.apply_grids(eko, np.array([f0, 2.0 * f0 + 1.0]))
+                    grids, gerrs = apply.apply_grids(eko, np.array([_replica(f0, i) for i in range(nrep)]))
                     got = apply.rotate_result(eko, grids, labels, None if Y is None else list(Y), Rm)
                     goterr = apply.rotate_result(eko, gerrs, labels, None if Y is None else list(Y), Rm)
         except Exception as e:  # noqa
@@ -205,25 +221,28 @@ def evaluate(case):
             flag(entry, "values", {"contraction"}, "scale", f"{where}: xfxQ2 called at Q2 {sorted(set(q for _p, q in pdf.calls))}, initial scale is {mu20}")
         # ---- reference
         f = _inputs(PdfLike(pk, MISSING[mk]), g, mu20)  # [14, n]
-        reps = [f] if entry != "apply_grids" else [f, 2.0 * f + 1.0]
+        reps = [f] if entry != "apply_grids" else [_replica(f, i) for i in range(nrep)]
         Ye = list(g) if Y is None else Y
-        P = Pabs = tolfac = None
+        P = Pabs = tolfac = QY = None
         if Y is not None:
-            cnd = G.MonomialCond(g, is_log, d)
-            tolfac = np.array([2e-13 + 64.0 * EPS * cnd(y) for y in Ye])  # rounding of one basis-function value (C34)
-            if opkind == "poly":
-                QY = ref.monomials(Ye, d)
-            else:
-                disp = interpolation.InterpolatorDispatcher(interpolation.XGrid(list(g), log=is_log), d, mode_N=False)
-                P = np.array([[disp[j].evaluate_x(y) for j in range(n)] for y in Ye])
-                Pabs = np.abs(P)
+            if tname not in tcache:  # depends on the target points only: computed once per case
+                cnd = G.MonomialCond(g, is_log, d)
+                tolfac = np.array([2e-13 + 64.0 * EPS * cnd(y) for y in Ye])  # rounding of one basis-function value (C34)
+                if opkind == "poly":
+                    QY = ref.monomials(Ye, d)
+                else:
+                    disp = interpolation.InterpolatorDispatcher(interpolation.XGrid(list(g), log=is_log), d, mode_N=False)
+                    P = np.array([[disp[j].evaluate_x(y) for j in range(n)] for y in Ye])
+                    Pabs = np.abs(P)
+                tcache[tname] = (tolfac, QY, P, Pabs)
+            tolfac, QY, P, Pabs = tcache[tname]
         # keys
         for name, dct, which in (("values", got, 0), ("errors", goterr, 1)):
-            want_eps = [ep for ep, (O, E, W) in zip(EPS_KEYS, ops) if which == 0 or E is not None]
+            want_eps = [ep for ep, (O, E, W) in zip(eps_keys, ops) if which == 0 or E is not None]
             if sorted(dct.keys()) != sorted(want_eps):
                 flag(entry, name, atoms, "evolution-points", f"{where}: keys {sorted(dct.keys())}, expected {sorted(want_eps)}")
                 continue
-            for ep, (O, E, W) in zip(EPS_KEYS, ops):
+            for ep, (O, E, W) in zip(eps_keys, ops):
                 if ep not in want_eps:
                     continue
                 T = O if which == 0 else E
@@ -255,7 +274,7 @@ def evaluate(case):
                         want, tol = out, 1e-12 * outabs
                     arr = np.array([np.asarray(dct[ep][lab]) for lab in labels], dtype=float)
                     if entry == "apply_grids":
-                        if arr.ndim != 3 or arr.shape[1] != 2:
+                        if arr.ndim != 3 or arr.shape[1] != nrep:
                             flag(entry, name, atoms, "shape", f"{where}: shape {arr.shape}")
                             break
                         arr = arr[:, irep, :]
@@ -283,7 +302,7 @@ def evaluate(case):
             e = b.load_cards(th, oc).build()
             if linear_open:
                 e.xgrid = interpolation.XGrid(list(g), log=False)
-            for ep, (O, E, _W) in zip(EPS_KEYS, ops):
+            for ep, (O, E, _W) in zip(eps_keys, ops):
                 e[ep] = Operator(O.copy(), None if E is None else E.copy())
             if linear_open:
                 run_all(e)  # apply to the still open, in-memory EKO (the only way to have a linear grid)
@@ -307,6 +326,11 @@ def evaluate(case):
     res.nontrivial = info["checks"] > 0
     res.outcome = f"qed={qed},op={opkind},log={is_log}"
     return res
+
+
+def _replica(f, i):
+    """i-th member of a family of distinct input grids: f, 2f+1, 3f+2, ... (alternating sign of the offset from i=2)."""
+    return (i + 1.0) * f + (i if i < 2 else (-1.0) ** i * 0.5 * i)
 
 
 def _inputs(pdf, g, mu20):
@@ -336,7 +360,8 @@ def run(ctx):
                                 "qed": qed, "n": n, "degree": d, "shape": shape, "xmin": xmin, "opkind": opkind,
                                 "pdfs": ["toy", "steep"],
                                 "missing": list(MISSING) if (d == 1 or thorough) else ["none", "heavy"],
-                                "targets": [None, "midpoints", "refined", "nodes", "same-length", "single"],
+                                "targets": [None, "midpoints", "refined", "nodes", "same-length", "single"]
+                                + (["midpoints-reversed", "dup"] if (d == 2 or thorough) else []),
                                 "entries": ["apply_pdf", "apply_pdf_flavor"] + (["apply_grids"] if (d == 2 or thorough) else []),
                             }
                         )
@@ -350,14 +375,40 @@ def run(ctx):
                     "entries": ["apply_pdf", "apply_pdf_flavor"],
                 }
             )
+    # ---- extras (small inner loops): QED order 2 / QCD order 3 theory cards, a 4th stored operator whose scale equals
+    # the 2nd one's (other nf), 1 / 3 / 14 replicas, and a grid of 14 points with 14 replicas (every axis of length 14)
+    nbase = len(cases)
+    for order in ([3, 2], [1, 2], [3, 0]):
+        for opkind in ("dense", "poly"):
+            cases.append(
+                {
+                    "qed": order[1] > 0, "order": order, "n": 4, "degree": 2, "shape": "geometric", "xmin": 1e-5, "opkind": opkind,
+                    "points": 4, "replicas": 1 if opkind == "dense" else 3, "decoy": False,
+                    "pdfs": ["toy"], "missing": ["none", "photon"], "targets": [None, "midpoints", "dup"],
+                    "entries": ["apply_pdf", "apply_grids"],
+                }
+            )
+    for qed in (False, True):
+        cases.append(
+            {
+                "qed": qed, "n": 14, "degree": 2, "shape": "geometric", "xmin": 1e-5, "opkind": "dense",
+                "points": 4, "replicas": 14, "decoy": False,
+                "pdfs": ["steep"], "missing": ["heavy"], "targets": [None, "midpoints-reversed"],
+                "entries": ["apply_pdf", "apply_grids"],
+            }
+        )
+    nextra = len(cases) - nbase
     results = ctx.run_cases(cases, evaluate)
     nchecks = sum((r[1][3] or {}).get("checks", 0) for r in results)
     nnum = sum((r[1][3] or {}).get("numbers", 0) for r in results)
     ctx.rule = (
         f"complete product QCD/QED x grids {grids} x sizes {sizes} x degrees {degrees} x operator kind "
         "{dense, polynomial-output} (one archive each, 3 evolution points, the middle one without error tensor), each "
-        "applied with 2 PDF families x 2-5 missing-flavour sets x rotate {no, yes} x 6 target options x 2-3 entry "
-        f"points (apply_pdf, apply_pdf_flavor, apply_grids+rotate_result with 2 replicas); plus 4 open linear-grid EKOs; "
+        "applied with 2 PDF families x 2-5 missing-flavour sets x rotate {no, yes} x 6 target options (8 for degree 2"
+        + (" " if not thorough else " and every other degree") + ": + reversed midpoints and an unsorted list with repeated points) x 2-3 entry "
+        f"points (apply_pdf, apply_pdf_flavor, apply_grids+rotate_result with 2 replicas); plus 4 open linear-grid EKOs; plus "
+        f"{nextra} archives with 4 stored operators (two of them at the same scale with different nf): theory orders (3,2), (1,2), "
+        "(3,0) with 1 / 3 replicas, and 14 grid points with 14 replicas (all tensor axes of length 14); "
         f"{nchecks} result blocks / {nnum} numbers compared; non-trivial = at least one block compared"
     )
     ctx.assumptions += [
@@ -365,5 +416,7 @@ def run(ctx):
         "tolerance 1e-12 x the same contraction of absolute values; exact-polynomial targets add (2e-13 + 64 eps cond) as in C34",
         "errors = the same linear pipeline applied to the (signed) error tensor",
         "dense-operator target grids: basis-function values taken point by point from eko's x-space basis (C34)",
-        "target grids that differ from the nodes only at very small x are not part of this property's quantifier (see C34/C42)",
+        "target grids that differ from the nodes only at very small x, or by a relative amount inside the 'same grid' band of "
+        "get_interpolation, are not part of this property's quantifier (see C34/C42)",
+        "target points are taken as an arbitrary list (any order, repetitions allowed): row i of the result belongs to point i",
     ]
